@@ -211,3 +211,26 @@ Proof.
   intros. unfold cdinv_check in H. repeat (apply andb_true_iff in H; destruct H as [H ?]).
   repeat split; apply Qle_bool_iff; assumption.
 Qed.
+
+Lemma qlist_close_abs_sound : forall a b tol, qlist_close_abs a b tol = true ->
+  Forall2 (fun x y => Qabs (x - y) <= tol) a b.
+Proof.
+  induction a as [|x s IH]; intros [|y t] tol H; simpl in H; try discriminate; [constructor|].
+  apply andb_true_iff in H. destruct H as [H1 H2]. constructor; [apply Qle_bool_iff; exact H1|apply IH; exact H2].
+Qed.
+
+Lemma sky_same_check_sound : forall lon lat lon' lat' tol, sky_same_check lon lat lon' lat' tol = true ->
+  Qabs (lat - lat') <= tol /\ lon_wrap_abs (lon - lon') * lon_weight lat <= tol.
+Proof.
+  intros lon lat lon' lat' tol H. unfold sky_same_check in H. apply andb_true_iff in H. destruct H as [H1 H2].
+  split; apply Qle_bool_iff; assumption.
+Qed.
+
+Lemma sky_list_same_sound : forall a b tol, sky_list_same a b tol = true ->
+  Forall2 (fun p q => Qabs (snd p - snd q) <= tol /\
+                      lon_wrap_abs (fst p - fst q) * lon_weight (snd p) <= tol) a b.
+Proof.
+  induction a as [|[l t] s IH]; intros [|[l' t'] s'] tol H; simpl in H; try discriminate; [constructor|].
+  apply andb_true_iff in H. destruct H as [H1 H2].
+  constructor; [apply sky_same_check_sound; exact H1|apply IH; exact H2].
+Qed.
